@@ -23,8 +23,7 @@ request                                                         reply
          (`ntrim` zero-stiffness boundary DOF trimmed by `_cbcoordchk`; `null`/`ml` the two `pv` lists `_solve_eig` prints)
          with `chk` = `pass`/`fail`/`single` (refpoint check; `single` when there is no other DOF),
          or `raise-refpoint` when a reference DOF has zero stiffness, `raise-singular` when a node's
-         translation block is singular (zero-stiffness translation), `raise-usetrows` / `raise-notascending` (ValueError),
-         `raise-emfilt-empty` (IndexError: positive em_filt, no mode above it)
+         translation block is singular (zero-stiffness translation), `raise-usetrows` / `raise-notascending` (ValueError)
 `solveeig n nb p bset… M(n n) K(n n) V(n p)`
       → `n1 nx nzm keep(n1) xs(nx) zs(nzm) bflag(nx) kred(nx nx) mred(nx nx) psi(nzm nx) presid V'(n p)`
          (`V'` = the rows of `V` on the DOF with mass, expanded back by the model)
@@ -239,8 +238,8 @@ def coordChk (nb : Nat) (kbb : NMat Float) (refp : List Nat) (normz : Option (NM
 
 /-- `cb.cbcoordchk(K, bset, refpoint, rb_normalizer=…)` called directly: `coordchk n nb bset… ref(6) norm(0 | 1 N(36)) K(n n)`
 → `chk nrows rbmodes(nrows 6) coords(3 ng) errs(ng) ntrim`, or `raise-bset-multiple` / `raise-refpoint` / `raise-singular`.
-(`nrows = n`, the modes scattered to the rows `bset`, when there are modal DOF; WITHOUT modal DOF the routine returns
-the `nb` rows in `bset` ORDER, cb.py:2158-2161.) -/
+(`nrows = n`: the modes are scattered to the rows `bset` of a zero matrix, with and - since the fix of finding F67 -
+without modal DOF.) -/
 def doCoordchk : P String := do
   let n ← pNat; let nb ← pNat
   let bset ← pMany nb pNat; let ref ← pMany 6 pNat
@@ -256,9 +255,8 @@ def doCoordchk : P String := do
   | .error e => pure e
   | .ok c =>
     let rbsB := ofArr c.rbsB 6
-    let lq := n - nb
-    let nrows := if lq > 0 then n else nb
-    let rbm := if lq > 0 then tab n 6 (fun i j => match idxIn bl i with | some k => rbsB k j | none => 0) else c.rbsB
+    let nrows := n
+    let rbm := tab n 6 (fun i j => match idxIn bl i with | some k => rbsB k j | none => 0)
     pure (" ".intercalate ([c.chk, toString nrows, fmtA rbm, fmtA c.coords, fmtA c.errs, toString c.ntrim].filter (· ≠ "")))
 
 /-- tabulation of an `nr x nc` block (the `memo` argument of the models): semantically the identity -/
@@ -304,7 +302,6 @@ def doCbcheck : P String := do
   let out ← match cbcheckWith memoF n M0 K0 bl bref0.toList usetN u0 isC0 isS0 uref opts twoPi 100 with
     | .error .usetRows => return "raise-usetrows"
     | .error .notAscending => return "raise-notascending"
-    | .error .emFiltEmpty => return "raise-emfilt-empty"
     | .ok o => pure o
   let M2 := out.m; let K2 := out.k
   let M2a := tab n n M2; let K2a := tab n n K2
